@@ -94,8 +94,22 @@ def sensitivity(args):
     os.makedirs(os.path.join(VERIF_DIR, "selftest"), exist_ok=True)
     rep = {"results": results, "wall_s": round(_real_time.monotonic() - t0, 1),
            "caught": sum(r["status"] in ("caught", "quiet-as-expected") for r in results), "total": len(results)}
+    last = os.path.join(VERIF_DIR, "selftest", "sensitivity_last.json")
     if not only:
-        with open(os.path.join(VERIF_DIR, "selftest", "sensitivity_last.json"), "w") as f:
+        with open(last, "w") as f:
             json.dump(rep, f, indent=1, sort_keys=True)
+    elif os.environ.get("VERIF_SENS_MERGE") == "1" and os.path.exists(last):
+        # a partial run (patches that arrived after the last full run, or re-runs): its rows replace or
+        # extend those of the last full report, marked as such; the totals are recomputed
+        old = json.load(open(last))
+        rows = {r["mutant"]: r for r in old["results"]}
+        for r in results:
+            rows[r["mutant"]] = dict(r, run_on_its_own=True)
+        merged = sorted(rows.values(), key=lambda r: (r["property"], r["mutant"]))
+        old.update(results=merged, total=len(merged),
+                   caught=sum(r["status"] in ("caught", "quiet-as-expected") for r in merged),
+                   wall_s=round(old.get("wall_s", 0) + rep["wall_s"], 1))
+        with open(last, "w") as f:
+            json.dump(old, f, indent=1, sort_keys=True)
     print("sensitivity: %d/%d caught" % (rep["caught"], rep["total"]))
     return EXIT_OK if rep["caught"] == rep["total"] else EXIT_HARNESS
